@@ -386,8 +386,12 @@ func (c *Ctx) ruleIndexInRange(rule string, fn *ssa.Function) {
 			// a counter compared with len of the same slice
 			okC := false
 			if cell := x.directCell(x.lastLoad(ia.Index)); cell != nil {
-				if cl := x.countedLoop(cell); cl != nil && cl.boundAdd == 0 && cl.loop.Blocks[ia.Block()] && x.symInt(cl.bound).equal(lenS) {
-					okC = true
+				if cl := x.countedLoop(cell); cl != nil && cl.loop.Blocks[ia.Block()] {
+					// counter < bound (+boundAdd) with bound (+boundAdd) <= len of the same slice
+					d := x.symInt(cl.bound).add(constForm(cl.boundAdd), 1).add(lenS, -1)
+					if len(d.terms) == 0 && d.k <= 0 {
+						okC = true
+					}
 				}
 			}
 			// less-function parameters of sort.SliceStable are in range by sort's contract
@@ -528,49 +532,77 @@ func (x *FnIndex) monotoneCounter(cell *ssa.Alloc, l *Loop) bool {
 // cutOffLoop: the loop head increments a counter and returns when it exceeds a constant.
 func (x *FnIndex) cutOffLoop(l *Loop) bool {
 	fn := l.Head.Parent()
-	var cell *ssa.Alloc
-	var incr *ssa.Store
-	for _, in := range l.Head.Instrs {
-		if st, ok := in.(*ssa.Store); ok {
-			if al, ok := st.Addr.(*ssa.Alloc); ok {
-				if bo, ok := st.Val.(*ssa.BinOp); ok && bo.Op == token.ADD && x.Cell(bo.X) == al {
-					if k, isK := constInt(bo.Y); isK && k == 1 {
-						cell, incr = al, st
-					}
-				}
+	// a counter: one store inside the loop, counter = counter + 1, wherever in the body it stands
+	type cand struct {
+		cell *ssa.Alloc
+		incr *ssa.Store
+	}
+	var cands []cand
+	eachInstr(fn, func(in ssa.Instruction) {
+		st, ok := in.(*ssa.Store)
+		if !ok || !l.Blocks[st.Block()] {
+			return
+		}
+		al, ok := st.Addr.(*ssa.Alloc)
+		if !ok {
+			return
+		}
+		bo, ok := st.Val.(*ssa.BinOp)
+		if !ok || bo.Op != token.ADD || x.Cell(bo.X) != al {
+			return
+		}
+		if k, isK := constInt(bo.Y); !isK || k != 1 {
+			return
+		}
+		for _, o := range x.stores[al] {
+			if o != st && (l.Blocks[o.Block()] || o.Parent() != fn) {
+				return
 			}
 		}
-	}
-	if cell == nil {
-		return false
-	}
-	// no other store to the counter inside the loop
-	for _, st := range x.stores[cell] {
-		if l.Blocks[st.Block()] && st != incr {
-			return false
-		}
-	}
-	// a test counter > const whose true edge leaves the loop by returning, on every path from the increment to the latch
-	var iff *ssa.If
-	eachInstr(fn, func(in ssa.Instruction) {
-		if i, ok := in.(*ssa.If); ok && l.Blocks[i.Block()] {
-			if bo, ok := i.Cond.(*ssa.BinOp); ok && (bo.Op == token.GTR || bo.Op == token.GEQ) && x.Cell(bo.X) == cell {
-				if _, isK := constInt(bo.Y); isK {
+		cands = append(cands, cand{al, st})
+	})
+	first := l.Head.Instrs[0]
+	isHead := func(in ssa.Instruction) bool { return in == first }
+	for _, cd := range cands {
+		// a test counter > const (>=) whose true edge leaves the loop, or counter <= const (<)
+		// whose false edge leaves it
+		var iff *ssa.If
+		eachInstr(fn, func(in ssa.Instruction) {
+			i, ok := in.(*ssa.If)
+			if !ok || !l.Blocks[i.Block()] {
+				return
+			}
+			bo, ok := i.Cond.(*ssa.BinOp)
+			if !ok || x.Cell(bo.X) != cd.cell {
+				return
+			}
+			if _, isK := constInt(bo.Y); !isK {
+				return
+			}
+			switch bo.Op {
+			case token.GTR, token.GEQ:
+				if !l.Blocks[i.Block().Succs[0]] {
+					iff = i
+				}
+			case token.LSS, token.LEQ:
+				if !l.Blocks[i.Block().Succs[1]] {
 					iff = i
 				}
 			}
+		})
+		if iff == nil {
+			continue
 		}
-	})
-	if iff == nil {
-		return false
+		// every trip round the loop passes the increment and the test
+		if _, found := pathExists(fn, first, isHead, func(in ssa.Instruction) bool { return in == ssa.Instruction(iff) }); found {
+			continue
+		}
+		if _, found := pathExists(fn, first, isHead, func(in ssa.Instruction) bool { return in == ssa.Instruction(cd.incr) }); found {
+			continue
+		}
+		return true
 	}
-	if l.Blocks[iff.Block().Succs[0]] {
-		return false
-	}
-	if _, found := pathExists(fn, incr, func(in ssa.Instruction) bool { return in == l.Head.Instrs[0] }, func(in ssa.Instruction) bool { return in == ssa.Instruction(iff) }); found {
-		return false
-	}
-	return true
+	return false
 }
 
 // ruleLockOrder (R8): edges held -> acquired, including locks taken by callees one and more levels down.
